@@ -550,6 +550,28 @@ fn workload(m: &mut Mon, bits: usize) {
             m.case("limbs_slice", bits, vec![au(&s)]);
         }
     }
+    // The interpreter lanes execute one or two `limbs_slice` cases per width (per-operation decay), so which slice
+    // length they see is luck - seeded change C07-I (an access one past the limb array for a slice of exactly LIMBS
+    // limbs at BITS % 64 = 0) was reported by the quick tier in some runs only. Shape corpus: every slice length
+    // 0..=LIMBS+2 with all-ones limbs (top limb inside / outside the mask), unthinned there.
+    if m.is_light() && l <= 9 {
+        let mut idx = 0u64;
+        for len in 0..=l + 2 {
+            for inside in [true, false] {
+                idx += 1;
+                if m.light_owns(idx, "limbs_slice") {
+                    let mut s = vec![u64::MAX; len];
+                    if inside && l > 0 && len >= l {
+                        s[l - 1] = gen::mask(bits);
+                        for x in &mut s[l..] {
+                            *x = 0;
+                        }
+                    }
+                    m.case_always("limbs_slice", bits, vec![au(&s)]);
+                }
+            }
+        }
+    }
 }
 
 fn main() {
